@@ -51,4 +51,9 @@ def run(ctx):
     T.refuse(ctx, L)
     ctx.rule("R-DISPATCH", "notify routes TP.CM/TP.DT by SAE PGN; every control byte has a branch", floor=7)
     T.dispatch(ctx, L)
+    from rules import robust as _R
+    ctx.rule("R-PAIR-ORDER", "state / deadline pair: written state-first by the receive path, read deadline-first by the job scan (no spurious time-out of a healthy session)", floor=3)
+    _R.pair_order(ctx, L)
+    ctx.rule("R-SESSION-FRESH", "each receive session starts with its own empty reassembly buffer (nothing shared between sessions)", floor=2)
+    S.session_fresh(ctx, L)
     return "structural necessary conditions of C01 decided on j1939_21.py"
